@@ -426,8 +426,9 @@ class VN:
             return T.app("le", b, a)
         if isinstance(op, (ast.Is, ast.IsNot)) and b == NONE and a != NONE and (is_seq(a) or _is_constructed(a)):
             return FALSE if isinstance(op, ast.Is) else TRUE
-        if isinstance(op, (ast.Is, ast.IsNot)) and a == NONE and b == NONE:
-            return TRUE if isinstance(op, ast.Is) else FALSE
+        if isinstance(op, (ast.Is, ast.IsNot)) and a in (NONE, TRUE, FALSE) and b in (NONE, TRUE, FALSE):
+            same = a == b
+            return (TRUE if same else FALSE) if isinstance(op, ast.Is) else (FALSE if same else TRUE)
         return T.app(CMP[type(op)], a, b)
 
     def ev_IfExp(self, e, st):
